@@ -274,3 +274,22 @@ package tree
 //@   loop 0 unroll 32
 //@   loop 0 invariant currentChildHash == foldUp(leaf.Hash, siblings, leaf.Index, h)
 //@   loop 0 invariant len(newNodes) == h && off(newNodes) == 0 && forall(k, 0, h, newNodes[k].Hash == H(newNodes[k].Left, newNodes[k].Right) && newNodes[k].Hash == foldUp(leaf.Hash, siblings, leaf.Index, k + 1) && newNodes[k].Left == ite(bitAt(leaf.Index, k), siblings[k], foldUp(leaf.Hash, siblings, leaf.Index, k)) && newNodes[k].Right == ite(bitAt(leaf.Index, k), foldUp(leaf.Hash, siblings, leaf.Index, k), siblings[k]))
+
+// ---- dropping the tree versions of reorged blocks (C04): one DELETE over the root table (pinned; semantics assumed,
+// A5): exactly the roots recorded at or after the first reorged block disappear; the reverse hash table is not touched
+// (left-over nodes are harmless: storeNodes tolerates them and lookups start from a stored root).
+//@ interface github.com/agglayer/aggkit/db/types.Txer.Exec@tree.(*Tree).Reorg (self, query, args)
+//@   requires self != nil
+//@   modifies rootHas(caller.t), stmtFail
+//@   ensures stmtFail == old(stmtFail) + ite(result1 == nil, 0, 1)
+//@   ensures result1 == nil ==> forall(i, int, rootHas(caller.t)[i] == (old(rootHas(caller.t))[i] && rootBlock(caller.t)[i] < caller.firstReorgedBlock))
+//@   ensures result1 != nil ==> rootHas(caller.t) == old(rootHas(caller.t))
+
+//@ func (t *Tree) Reorg
+//@   props C04
+//@   sqltext "DELETE FROM %s WHERE block_num >= $1"
+//@   requires t != nil && tx != nil
+//@   modifies rootHas(t), stmtFail
+//@   ensures[fault-counted] stmtFail == old(stmtFail) + ite(result == nil, 0, 1)
+//@   ensures[roots-from-that-block-on-dropped] result == nil ==> forall(i, int, rootHas(t)[i] == (old(rootHas(t))[i] && rootBlock(t)[i] < firstReorgedBlock))
+//@   ensures[failure-changes-nothing] result != nil ==> rootHas(t) == old(rootHas(t))
